@@ -40,6 +40,7 @@ int usim_here(void);        // logical thread id (0 = body), -1 if not a sim thr
 uint64_t usim_now(void);    // simulated nanoseconds (does not advance the clock)
 uint64_t usim_seq(void);    // global event sequence number (bumps on each call)
 uint64_t usim_step(void);   // scheduling points so far
+int usim_live_threads(void); // sim threads that have not finished (including the caller)
 
 // ---- scheduling
 void usim_yield(void);                       // scheduling point; marks caller Yielded
